@@ -63,6 +63,37 @@ CLAIMED = {
                 "not proved). Over-mounted host /proc is exercised by C06's runs.",
         "technique": "Coq proof (all responses) + differential against the kernel's raw reopen + trace replay",
     },
+    "C16": {
+        "text": "Machine-checked theorems about the error-id table as a state machine over ALL histories of atomic store/take "
+                "operations (any number of threads, any interleaving, arbitrary generator output): ids lie in [INT_MIN, -4096] "
+                "(range read from the source by T0), a fresh id differs from every live id, a take returns exactly what was stored "
+                "and a second take returns nothing, refinement to a partial map with fresh keys; errno table. Runtime: 1..64 "
+                "threads fail through four C entry points and consume each other's ids; a serialised history is replayed on the model.",
+        "note": "Trusted: Coq kernel (no axioms); std::sync::Mutex atomicity of the two table operations; T0 extractor (range, "
+                "errno table); that every failing C call goes through store_error is checked at run time only.",
+        "technique": "Coq proof (invariant + refinement over all operation histories) + concurrent C-API stress + history replay on the model",
+    },
+    "C17": {
+        "text": "Machine-checked theorems: copy_path_into_buffer over a byte-addressed memory returns the full length and changes "
+                "memory exactly on [buf, buf+min(len,size)) for every body, address, size (NULL / 0 untouched); lengths fit a C int "
+                "(T0 buffer bound); a negative fd, NULL path or unknown base is refused with InvalidArgument before the body runs; "
+                "the mknod S_IFMT decode is exact; borrowed descriptors are never closed (from C11). Runtime: every entry point x "
+                "invalid class (no syscall may precede the refusal), link bodies 1..4095 x all buffer sizes 0..len+3 and NULL with "
+                "canaries; real buffers compared byte-for-byte with the model evaluated in Coq.",
+        "note": "Trusted: Coq kernel (no axioms); the small hand-written glue model (coq/theories/CApi.v), tied by the run-time "
+                "comparison and the 'empty trace on refusal' oracle; T0 extractor (constants, mknod table).",
+        "technique": "Coq proof (memory-model contract, decision rules) + differential of the real C entry points against the model",
+    },
+    "C18": {
+        "category": "translation_validation",
+        "text": "On every run six fact lists are re-extracted from the tree (header, Rust extern \"C\" items, nm of the freshly built "
+                "library, a C translation unit compiled+linked against header and library, Go and Python call sites) and the finite "
+                "claims (same symbols/arity/width classes both ways, enum values, pathrs_error_t layout, every binding call declared "
+                "with the assumed signature) are decided completely by computation inside Coq, by checkers proved sound.",
+        "note": "Trusted: tools/abi_extract.py (regex-level parsers; x86-64 width classes), gcc, nm, Coq kernel (no axioms). Go and "
+                "cffi are not installed, so the bindings are parsed rather than compiled.",
+        "technique": "translation validation: regenerated fact lists + sound boolean checkers evaluated in Coq",
+    },
 }
 
 PENDING_REASON = "check not registered yet in this round (design in DESIGN.md §%s; being built)"
